@@ -363,7 +363,7 @@ def run_r5(ctx, rule):
                     if s["k"] == "assign" and s["rv"]["k"] == "agg" and s["rv"].get("adt") == "core::option::Option" and s["rv"]["variant"] == "None":
                         # is this the Ok(None) result?  it must be dominated by counter == 0
                         fs = guards.facts_at(f, bi)
-                        okz = any(fa[0] == "cmp" and fa[1] == "Eq" and ("c", 0) in (fa[2], fa[3]) and any(x[0] == "f" and x[2] in COUNTERS for x in (fa[2], fa[3])) for s0, fa in fs)
+                        okz = any((fa[0] == "cmp" and fa[1] == "Eq" and ("c", 0) in (fa[2], fa[3]) and any(x[0] == "f" and x[2] in COUNTERS for x in (fa[2], fa[3]))) or (fa[0] == "eq" and fa[2] == 0 and fa[1][0] == "f" and fa[1][2] in COUNTERS) for s0, fa in fs)
                         # only the None that is returned as Ok(None)
                         e = None
                         nxt = [s2 for s2 in b["stmts"] if s2["k"] == "assign" and s2["rv"]["k"] == "agg" and s2["rv"].get("adt") == "core::result::Result" and s2["rv"]["variant"] == "Ok" and s2["lhs"]["l"] == 0]
